@@ -65,7 +65,8 @@ class Ctx:
         self.sp_lookup = sp_lookup or (lambda cid, amp, don, doff: 0)
 
     def ph(self, x):
-        return int(round(float(x) / self.phase_unit))
+        v = int(round(float(x) / self.phase_unit))
+        return v % self.phase_mod if self.phase_mod else v
 
 
 def project(seq, ctx):
@@ -138,7 +139,7 @@ def diff(a, b, ptol=0, pmod=0, path=""):
         if set(a) != set(b):
             return f"{path}: keys {sorted(a)} vs {sorted(b)}"
         for k in a:
-            if k in PHASE_KEYS and ptol:
+            if k in PHASE_KEYS and (ptol or pmod):
                 xs = a[k] if isinstance(a[k], list) else [a[k]]
                 ys = b[k] if isinstance(b[k], list) else [b[k]]
                 if len(xs) != len(ys):
